@@ -15,9 +15,21 @@ use tokio_util::codec::{Decoder, Encoder};
 use crate::wire::{hex, hexd};
 
 pub struct Clock(pub AtomicU64);
+/// sched suite: the client thread whose clock reads during the current grant return the value from before the last
+/// tick (its call had read the clock, the tick happened, other calls ran, then its map operation ran); -1 = nobody
+pub static STALE_TID: std::sync::atomic::AtomicI64 = std::sync::atomic::AtomicI64::new(-1);
+thread_local! {
+    pub static CLOCK_TID: std::cell::Cell<Option<usize>> = const { std::cell::Cell::new(None) };
+}
 impl Timer for Clock {
     fn timestamp(&self) -> u64 {
-        self.0.load(Ordering::SeqCst)
+        let t = self.0.load(Ordering::SeqCst);
+        if let Some(i) = CLOCK_TID.with(|c| c.get()) {
+            if STALE_TID.load(Ordering::SeqCst) == i as i64 {
+                return t.saturating_sub(1);
+            }
+        }
+        t
     }
 }
 
